@@ -415,6 +415,25 @@ func runC08(w *World, pi interface{}) {
 		}
 	}
 	scriptDone.WaitFor(5 * time.Minute)
+	// the report stays truthful: once a later session envelope of the server that is not an
+	// established one has had time to arrive, the channel does not call itself established anymore
+	if ret.Frame["established"] == true && p.Faults.Benign() {
+		var later map[string]interface{}
+		junk := false // raw bytes in the stream: what follows them need not be an envelope to the client
+		for _, e := range h.Ev {
+			if e.Seq > ret.Seq && e.Kind == "c-send" && isSessionFrame(e.Frame) {
+				later = e.Frame
+			}
+			if e.Seq > ret.Seq && e.Kind == "c-bytes" {
+				junk = true
+			}
+		}
+		if later != nil && !junk && fstr(later, "state") != "established" {
+			if !w.Eventually(30*time.Second, func() bool { return !ch.Established() }) {
+				w.Violate("C08.established-after-servers-later-word", sig("state="+fstr(later, "state")), "30 s after the server's latest session envelope (%s) the client channel still reports an established session (buffer size %d)\n%s", short(canonJSON(later), 200), p.Buf, h.Dump(60))
+			}
+		}
+	}
 	// closes when the server answered finished or failed (during the handshake)
 	// (only when the client demonstrably consumed that answer: its own state shows it)
 	consumed := fstr(ret.Frame, "state") == "failed" || fstr(ret.Frame, "state") == "finished"
